@@ -145,7 +145,43 @@ def value_reporters_agree(ctx, rule):
             ctx.ok(rule, g, g.node, "the Parameter looked up in the instance namespace (%s) is only used to choose the route; the value comes from getattr, the value store or the class-level Parameter" % ", ".join(sorted(tainted)))
 
 
+def serializer_reports_what_getattr_reports(ctx, rule):
+    """JSONSerialization.serialize_parameters is a value reporter in another module: the value it hands to the codec of
+    each parameter must come from the namespace's own reporters (get_value_generator / inspect_value) or getattr -- the
+    routes R13.g decides -- and never from `.default` of a Parameter out of `objects('existing')` (a per-instance copy
+    keeps the default it was created with) or from the private value store read on the side."""
+    from engine.loader import AnalysisError
+    f = ctx.repo.func("param.serializer.JSONSerialization.serialize_parameters")
+    sites = [c for c in ast.walk(f.node) if isinstance(c, ast.Call) and isinstance(c.func, ast.Attribute) and c.func.attr == "serialize" and len(c.args) == 1]
+    ctx.require(len(sites) >= 1, "serialize_parameters no longer calls <parameter>.serialize(value)")
+
+    def sources(e, depth=0):
+        if isinstance(e, ast.Name):
+            defs = [st.value for st in ast.walk(f.node) if isinstance(st, ast.Assign) and any(isinstance(t, ast.Name) and t.id == e.id for t in st.targets)]
+            if not defs or depth > 3:
+                raise AnalysisError("%s: the value serialize_parameters hands to the codec (`%s`) has no assignment the rule can follow" % (rule, e.id))
+            return [x for d in defs for x in sources(d, depth + 1)]
+        if isinstance(e, ast.IfExp):
+            return sources(e.body, depth + 1) + sources(e.orelse, depth + 1)
+        return [e]
+    for c in sites:
+        bad = []
+        for src_ in sources(c.args[0]):
+            ok = isinstance(src_, ast.Call) and ((isinstance(src_.func, ast.Attribute) and src_.func.attr in ("get_value_generator", "inspect_value")) or norm(src_.func) == "getattr")
+            if not ok:
+                bad.append(src_)
+        if bad:
+            ctx.fail(rule, f, bad[0], "serialize_parameters hands `%s` to the codec: not a value obtained through get_value_generator / inspect_value / getattr.  A `.default` read off the "
+                                      "Parameter from objects('existing') is the per-instance copy's, frozen when the copy was made; after a class-level set the serialized value differs from getattr "
+                                      "and values()" % norm(bad[0])[:80], key=f.qualname + "::value-not-from-the-reporters",
+                     input="p = P(); p.param['x']; P.x = 7  ->  p.x == 7 but p.param.serialize_parameters() says the old default")
+        else:
+            ctx.ok(rule, f, c, "the value handed to the codec comes from the namespace's value reporters")
+
+
 def run(ctx):
+    ctx.rule("R13.z", "the serializer is a value reporter too: every value JSONSerialization.serialize_parameters hands to a codec comes from get_value_generator / inspect_value / getattr (the routes R13.g decides), never from `.default` of a looked-up Parameter or the private value store", floor=1)
+    serializer_reports_what_getattr_reports(ctx, "R13.z")
     ctx.rule("R13.a", "every installation of a Parameter into a class namespace (type.__setattr__) is followed, on every path "
                       "incl. exceptional ones and before anything that may raise, by an invalidation of the `.param` cache "
                       "of that class AND all its subclasses", floor=3)
